@@ -309,3 +309,15 @@ PROPS["C11"]["floors"]["any"]["renamed_runs"] = 1500
 PROPS["C19"]["evaluations_from"] = ["sequences", "pairs", "triples", "random_sequences"]
 PROPS["C16"]["evaluations_from"] = ["nodes_checked"]
 PROPS["C10"]["evaluations_from"] = ["generator_sets", "histories_completed"]
+
+# ---- sparse-monitoring lanes: no query / invariant check between the operations (those canonicalise handles and thereby compress
+# union-find paths, which can mask defects that need an untouched chain); everything is judged once after the last operation
+for _p in ("C01", "C02"):
+    PROPS[_p]["quick"].append({"variant": "default", "cases": 8000, "params": {"profile": "mix", "sparse": 1}, "timeout": 600})
+    PROPS[_p]["thorough"].append({"variant": "default", "cases": 200000, "params": {"profile": "mix", "sparse": 1}, "timeout": 3000})
+PROPS["C08"]["quick"].append({"variant": "default", "cases": 16000, "params": {"mode": "hist", "sparse": 1}, "timeout": 600})
+PROPS["C08"]["thorough"].append({"variant": "default", "cases": 600000, "params": {"mode": "hist", "sparse": 1}, "timeout": 3000})
+PROPS["C13"]["quick"].append({"variant": "default", "cases": 6000, "params": {"with_q": 1, "sparse": 1, "len_lo": 8, "len_hi": 30, "case_timeout": 30}, "timeout": 900})
+PROPS["C13"]["quick"].append({"variant": "default", "cases": 600, "params": {"sparse": 1, "case_timeout": 30}, "timeout": 900})
+PROPS["C13"]["thorough"].append({"variant": "default", "cases": 300000, "params": {"with_q": 1, "sparse": 1, "len_lo": 8, "len_hi": 40, "case_timeout": 60}, "timeout": 3400})
+PROPS["C13"]["thorough"].append({"variant": "default", "cases": 30000, "params": {"sparse": 1, "len_lo": 40, "len_hi": 200, "case_timeout": 60}, "timeout": 3400})
